@@ -296,8 +296,19 @@ func WorkerMain() {
 				os.Exit(0)
 			}
 			if !sameViolation(r.Kinds, r2.Kinds) {
-				r.Flaky = true
-				r.Detail = fmt.Sprintf("first run: %v (%s); second run: %v (%s)", r.Kinds, r.Detail, r2.Kinds, r2.Detail)
+				if len(r2.Kinds) == 0 && len(r.Kinds) == 1 && r.Kinds[0] == KAlloc {
+					// an allocation within a few KB of the bound: the third run decides
+					in3 := Concretise(&j)
+					m3 := measure(&j, in3, tmp, abort)
+					r3 := judge(&j, in3, &m3)
+					if len(r3.Kinds) == 0 && !m3.timeout {
+						r3.Noise = "allocation bound exceeded once in three runs (" + r.Detail + "); ignored"
+						r = r3
+					}
+				} else {
+					r.Flaky = true
+					r.Detail = fmt.Sprintf("first run: %v (%s); second run: %v (%s)", r.Kinds, r.Detail, r2.Kinds, r2.Detail)
+				}
 			}
 		}
 		emit(r)
